@@ -12,14 +12,24 @@ namespace fastscapelib
     namespace detail
     {
 
+        // Note: dereferencing returns the node index by value (the index is stored in
+        // the iterator itself, a reference to it would not outlive a temporary iterator
+        // such as the one created by std::reverse_iterator::operator*).
         template <class G>
         struct grid_node_index_iterator
             : public xtl::xbidirectional_iterator_base<grid_node_index_iterator<G>,
+                                                       typename G::size_type,
+                                                       std::ptrdiff_t,
+                                                       const typename G::size_type*,
                                                        typename G::size_type>
         {
         public:
             using self_type = grid_node_index_iterator<G>;
-            using base_type = xtl::xbidirectional_iterator_base<self_type, typename G::size_type>;
+            using base_type = xtl::xbidirectional_iterator_base<self_type,
+                                                                typename G::size_type,
+                                                                std::ptrdiff_t,
+                                                                const typename G::size_type*,
+                                                                typename G::size_type>;
 
             using value_type = typename base_type::value_type;
             using reference = typename base_type::reference;
